@@ -84,6 +84,11 @@ func c19Run(r *zsim.Run) {
 	maxBackups := zsim.Pick(o, 0, 1, 3)
 	maxSize := int64(zsim.Pick(o, 200, 64, 1000))
 	filename := filepath.Join(dir, "app.log")
+	if o.Intn(4) == 0 {
+		// the same file in a spelling that is not canonical (the rules compare names with what Glob returns)
+		filename = dir + zsim.Pick(o, "/./app.log", "//app.log")
+		r.Probe("non_canonical_file_name")
+	}
 	// start somewhere inside a day
 	zsim.Sleep(time.Duration(o.Intn(86000)) * time.Second)
 	now := func() time.Time { return time.Now() }
